@@ -873,3 +873,629 @@ Proof.
   apply perm_flat_map_ext. intros ii _.
   rewrite (blocked_map (fun jj => E kk ii jj) d2). apply Permutation_refl.
 Qed.
+
+(* ================================================================== sums over a commutative monoid *)
+Section Sums.
+  Variable T : Type.
+  Variables (zero : T) (add : T -> T -> T).
+  Hypothesis add_comm : forall a b, add a b = add b a.
+  Hypothesis add_assoc : forall a b c, add a (add b c) = add (add a b) c.
+  Hypothesis add_0_l : forall a, add zero a = a.
+
+  Definition sum_list (l : list T) : T := fold_right add zero l.
+
+  Lemma fold_left_sum l : forall x, fold_left add l x = add x (sum_list l).
+  Proof.
+    induction l as [|y l IH]; intro x; cbn [fold_left sum_list fold_right].
+    - rewrite add_comm, add_0_l. reflexivity.
+    - rewrite IH. rewrite <- add_assoc. reflexivity.
+  Qed.
+
+  Lemma sum_list_perm l l' : Permutation l l' -> sum_list l = sum_list l'.
+  Proof.
+    induction 1 as [|x l l' H IH|x y l|l l' l'' H1 IH1 H2 IH2]; cbn [sum_list fold_right].
+    - reflexivity.
+    - f_equal. exact IH.
+    - rewrite !add_assoc. f_equal. apply add_comm.
+    - congruence.
+  Qed.
+
+  Lemma sum_list_app l l' : sum_list (l ++ l') = add (sum_list l) (sum_list l').
+  Proof.
+    induction l as [|x l IH]; cbn [app sum_list fold_right].
+    - rewrite add_0_l. reflexivity.
+    - fold (sum_list (l ++ l')). rewrite IH. apply add_assoc.
+  Qed.
+End Sums.
+
+(* ================================================================== matmul *)
+Section Matmul.
+  Variables (sa sb sy : tshape) (d1 d2 d3 B : nat).
+  (* shape_ops::matmul: a = {d1,d2}, b = {d2,d3}, y = {d1,d3}, batch = max, operands 1 or B *)
+  Hypothesis Hd1 : tget sa 0 = d1.
+  Hypothesis Hd2 : tget sa 1 = d2.
+  Hypothesis Hd3 : tget sb 1 = d3.
+  Hypothesis HB : tbatch sy = B.
+
+  (* the contribution  y[b; i,k] += a[b or shared; i,j] * b[b or shared; j,k]  (column-major) *)
+  Definition mm_entry (b k i j : nat) : nat * (nat * nat) :=
+    (b * (d1 * d3) + i + k * d1,
+     (bsel sa b * (d1 * d2) + i + j * d1, bsel sb b * (d2 * d3) + j + k * d2)).
+
+  (* the plain triple loop  for b, for k, for i, for j *)
+  Definition matmul_canon : list (nat * (nat * nat)) :=
+    flat_map2 B (fun b => flat_map2 d3 (fun k => flat_map2 d1 (fun i =>
+      map (fun j => mm_entry b k i j) (range d2)))).
+
+  (* the blocked nest is a reordering of the plain loop: every (b,k,i,j) exactly once *)
+  Theorem matmul_perm : Permutation (matmul_contribs sa sb sy) matmul_canon.
+  Proof.
+    unfold matmul_contribs, matmul_canon, flat_map2, range. rewrite Hd1, Hd2, Hd3, HB.
+    apply perm_flat_map_ext. intros b _.
+    etransitivity.
+    { apply (blocked_nest_perm (fun kk ii jj =>
+        (b * (d1 * d3) + ii + kk * d1,
+         (b * (thas_batch sa * d1 * d2) + ii + jj * d1, b * (thas_batch sb * d2 * d3) + jj + kk * d2)))). }
+    apply Permutation_refl'. apply flat_map_ext. intro k. apply flat_map_ext. intro i.
+    apply map_ext. intro j. unfold mm_entry, bsel. f_equal. f_equal; f_equal; f_equal; ring.
+  Qed.
+
+  Lemma matmul_canon_In e :
+    In e matmul_canon <-> exists b k i j, b < B /\ k < d3 /\ i < d1 /\ j < d2 /\ e = mm_entry b k i j.
+  Proof.
+    unfold matmul_canon. rewrite In_flat_map2. split.
+    - intros [b [Hb H]]. apply In_flat_map2 in H. destruct H as [k [Hk H]].
+      apply In_flat_map2 in H. destruct H as [i [Hi H]]. apply In_map_range in H.
+      destruct H as [j [Hj ->]]. exists b, k, i, j. auto.
+    - intros [b [k [i [j [Hb [Hk [Hi [Hj ->]]]]]]]]. exists b. split; [exact Hb|].
+      apply In_flat_map2. exists k. split; [exact Hk|]. apply In_flat_map2. exists i. split; [exact Hi|].
+      apply In_map_range. exists j. auto.
+  Qed.
+
+  Lemma mm_dst_flat b k i : b * (d1 * d3) + i + k * d1 = flat d1 d3 i k b.
+  Proof. unfold flat. ring. Qed.
+
+  Lemma mm_dst_inj b k i b' k' i' : i < d1 -> i' < d1 -> k < d3 -> k' < d3 ->
+    b * (d1 * d3) + i + k * d1 = b' * (d1 * d3) + i' + k' * d1 -> b = b' /\ k = k' /\ i = i'.
+  Proof.
+    intros Hi Hi' Hk Hk' E. rewrite !mm_dst_flat in E.
+    destruct (flat_inj d1 d3 i k b i' k' b' Hi Hi' Hk Hk' E) as [-> [-> ->]]. auto.
+  Qed.
+
+  (* C02: the contributions to output cell (i,k) of sample b are a[i,j]*b[j,k] for j < d2,
+     each j exactly once *)
+  Theorem matmul_cell b i k : b < B -> i < d1 -> k < d3 ->
+    Permutation (cell (b * (d1 * d3) + i + k * d1) (matmul_contribs sa sb sy))
+                (map (fun j => mm_entry b k i j) (range d2)).
+  Proof.
+    intros Hb Hi Hk. unfold cell. rewrite (perm_filter _ _ _ matmul_perm).
+    apply Permutation_refl'. unfold matmul_canon.
+    set (P := fun e : nat * (nat * nat) => fst e =? b * (d1 * d3) + i + k * d1).
+    assert (Hother : forall b' k' i' j', b' < B -> k' < d3 -> i' < d1 ->
+              (b', k', i') <> (b, k, i) -> P (mm_entry b' k' i' j') = false).
+    { intros b' k' i' j' Hb' Hk' Hi' Hne. unfold P, mm_entry. cbn [fst]. apply Nat.eqb_neq. intro E.
+      destruct (mm_dst_inj b' k' i' b k i Hi' Hi Hk' Hk E) as [-> [-> ->]]. apply Hne. reflexivity. }
+    rewrite (filter_flat_map2_one P B _ b Hb).
+    2:{ intros b' Hb' Hne. apply filter_none. intros x Hx. apply In_flat_map2 in Hx. destruct Hx as [k' [Hk' Hx]].
+        apply In_flat_map2 in Hx. destruct Hx as [i' [Hi' Hx]]. apply In_map_range in Hx.
+        destruct Hx as [j' [_ ->]]. apply Hother; try assumption. congruence. }
+    rewrite (filter_flat_map2_one P d3 _ k Hk).
+    2:{ intros k' Hk' Hne. apply filter_none. intros x Hx.
+        apply In_flat_map2 in Hx. destruct Hx as [i' [Hi' Hx]]. apply In_map_range in Hx.
+        destruct Hx as [j' [_ ->]]. apply Hother; try assumption. congruence. }
+    rewrite (filter_flat_map2_one P d1 _ i Hi).
+    2:{ intros i' Hi' Hne. apply filter_none. intros x Hx. apply In_map_range in Hx.
+        destruct Hx as [j' [_ ->]]. apply Hother; try assumption. congruence. }
+    apply filter_all. intros x Hx. apply In_map_range in Hx. destruct Hx as [j [_ ->]].
+    unfold P, mm_entry. cbn [fst]. apply Nat.eqb_refl.
+  Qed.
+
+  (* every element of y is such a cell *)
+  Lemma matmul_cells_cover d : 0 < d1 -> 0 < d3 -> d < B * (d1 * d3) ->
+    exists b i k, b < B /\ i < d1 /\ k < d3 /\ d = b * (d1 * d3) + i + k * d1.
+  Proof.
+    intros H1 H3 Hd. destruct (flat_split d1 d3 B d H1 H3) as [i [k [b [Hi [Hk [Hb E]]]]]]; [lia|].
+    exists b, i, k. rewrite mm_dst_flat. auto.
+  Qed.
+
+  Hypothesis HVa : tvolume sa = d1 * d2.
+  Hypothesis HVb : tvolume sb = d2 * d3.
+  Hypothesis HVy : tvolume sy = d1 * d3.
+  Hypothesis Hba : tbatch sa = 1 \/ tbatch sa = B.
+  Hypothesis Hbb : tbatch sb = 1 \/ tbatch sb = B.
+
+  (* C11: every access of the blocked nest is inside its buffer *)
+  Theorem matmul_in_bounds :
+    Forall (fun e => fst e < tsize sy /\ fst (snd e) < tsize sa /\ snd (snd e) < tsize sb)
+           (matmul_contribs sa sb sy).
+  Proof.
+    apply (Permutation_Forall (Permutation_sym matmul_perm)).
+    apply Forall_forall. intros e He. apply matmul_canon_In in He.
+    destruct He as [b [k [i [j [Hb [Hk [Hi [Hj ->]]]]]]]]. unfold mm_entry. cbn [fst snd].
+    unfold tsize. rewrite HVa, HVb, HVy, HB.
+    pose proof (bsel_lt sa b B Hba Hb) as H1. pose proof (bsel_lt sb b B Hbb Hb) as H2.
+    assert (A1 : i + k * d1 < d1 * d3) by nia.
+    assert (A2 : i + j * d1 < d1 * d2) by nia.
+    assert (A3 : j + k * d2 < d2 * d3) by nia.
+    assert (B1 : (b + 1) * (d1 * d3) <= B * (d1 * d3)) by (apply Nat.mul_le_mono_r; lia).
+    assert (B2 : (bsel sa b + 1) * (d1 * d2) <= tbatch sa * (d1 * d2)) by (apply Nat.mul_le_mono_r; lia).
+    assert (B3 : (bsel sb b + 1) * (d2 * d3) <= tbatch sb * (d2 * d3)) by (apply Nat.mul_le_mono_r; lia).
+    lia.
+  Qed.
+
+  (* ---- value level: y = A * B per sample, over any commutative monoid with a product ---- *)
+  Section Value.
+    Variable T : Type.
+    Variables (zero : T) (add mul : T -> T -> T).
+    Hypothesis add_comm : forall a b, add a b = add b a.
+    Hypothesis add_assoc : forall a b c, add a (add b c) = add (add a b) c.
+    Hypothesis add_0_l : forall a, add zero a = a.
+
+    (* dest[dst] += a[ia] * b[ib] for every contribution *)
+    Definition bil_incr (p : list (nat * (nat * nat))) (a b : list T) : list (nat * T) :=
+      map (fun e => (fst e, mul (nth (fst (snd e)) a zero) (nth (snd (snd e)) b zero))) p.
+
+    Lemma cell_bil_incr d p a b : cell d (bil_incr p a b) = bil_incr (cell d p) a b.
+    Proof. unfold cell, bil_incr. rewrite filter_map_comm. reflexivity. Qed.
+
+    Lemma nth_repeat_zero n j : nth j (repeat zero n) zero = zero.
+    Proof. revert j. induction n as [|n IH]; intros [|j]; cbn [repeat nth]; auto. Qed.
+
+    Theorem matmul_value a b bn i k : bn < B -> i < d1 -> k < d3 ->
+      nth (bn * (d1 * d3) + i + k * d1)
+          (incr_run T zero add (bil_incr (matmul_contribs sa sb sy) a b) (repeat zero (tsize sy))) zero
+      = sum_list T zero add (map (fun j =>
+          mul (nth (bsel sa bn * (d1 * d2) + i + j * d1) a zero)
+              (nth (bsel sb bn * (d2 * d3) + j + k * d2) b zero)) (range d2)).
+    Proof.
+      intros Hb Hi Hk. rewrite nth_incr_run.
+      - rewrite nth_repeat_zero, (fold_left_sum T zero add add_comm add_assoc add_0_l), add_0_l.
+        rewrite cell_bil_incr.
+        rewrite (sum_list_perm T zero add add_comm add_assoc _
+                   (map snd (bil_incr (map (fun j => mm_entry bn k i j) (range d2)) a b))).
+        + unfold bil_incr. rewrite !map_map. reflexivity.
+        + apply Permutation_map. unfold bil_incr. apply Permutation_map. apply matmul_cell; assumption.
+      - rewrite repeat_length. unfold bil_incr. rewrite Forall_map. cbn [fst].
+        eapply Forall_impl; [|exact matmul_in_bounds]. intros e [H _]. exact H.
+    Qed.
+  End Value.
+End Matmul.
+
+(* ================================================================== matmul_bw (C01) *)
+(* matmul_bw_impl is  ga += gy * b^T ;  gb += a^T * gy  (through matmul_fw, transpose_fw and
+   inplace_add_impl).  Over a commutative semiring this is the adjoint of the differential
+   dY = A*dB + dA*B of Y = A*B:   <gy, A*dB + dA*B> = <gy*B^T, dA> + <A^T*gy, dB>. *)
+Section MatAlg.
+  Variable T : Type.
+  Variables (zero : T) (add mul : T -> T -> T).
+  Hypothesis add_comm : forall a b, add a b = add b a.
+  Hypothesis add_assoc : forall a b c, add a (add b c) = add (add a b) c.
+  Hypothesis add_0_l : forall a, add zero a = a.
+  Hypothesis mul_comm : forall a b, mul a b = mul b a.
+  Hypothesis mul_assoc : forall a b c, mul a (mul b c) = mul (mul a b) c.
+  Hypothesis mul_add_distr_l : forall a b c, mul a (add b c) = add (mul a b) (mul a c).
+  Hypothesis mul_0_r : forall a, mul a zero = zero.
+
+  Fixpoint sumn (n : nat) (f : nat -> T) : T :=
+    match n with 0 => zero | S m => add (sumn m f) (f m) end.
+
+  Lemma sumn_ext n f g : (forall i, i < n -> f i = g i) -> sumn n f = sumn n g.
+  Proof.
+    induction n as [|n IH]; intro H; cbn [sumn]; [reflexivity|].
+    rewrite IH by (intros i Hi; apply H; lia). rewrite H by lia. reflexivity.
+  Qed.
+
+  Lemma sumn_zero n : sumn n (fun _ => zero) = zero.
+  Proof. induction n as [|n IH]; cbn [sumn]; [reflexivity|]. rewrite IH. apply add_0_l. Qed.
+
+  Lemma sumn_add n f g : sumn n (fun i => add (f i) (g i)) = add (sumn n f) (sumn n g).
+  Proof.
+    induction n as [|n IH]; cbn [sumn]; [rewrite add_0_l; reflexivity|]. rewrite IH.
+    rewrite <- !add_assoc. f_equal. rewrite !add_assoc. f_equal. apply add_comm.
+  Qed.
+
+  Lemma sumn_mul_l n c f : mul c (sumn n f) = sumn n (fun i => mul c (f i)).
+  Proof.
+    induction n as [|n IH]; cbn [sumn]; [apply mul_0_r|]. rewrite mul_add_distr_l, IH. reflexivity.
+  Qed.
+
+  Lemma sumn_mul_r n c f : mul (sumn n f) c = sumn n (fun i => mul (f i) c).
+  Proof. rewrite mul_comm, sumn_mul_l. apply sumn_ext. intros i _. apply mul_comm. Qed.
+
+  Lemma sumn_swap n m (f : nat -> nat -> T) :
+    sumn n (fun i => sumn m (fun j => f i j)) = sumn m (fun j => sumn n (fun i => f i j)).
+  Proof.
+    induction n as [|n IH]; cbn [sumn].
+    - rewrite sumn_zero. reflexivity.
+    - rewrite IH, <- sumn_add. reflexivity.
+  Qed.
+
+  (* per-sample matrices as functions row -> column -> T *)
+  Definition mmul (n : nat) (A B : nat -> nat -> T) (i k : nat) : T := sumn n (fun j => mul (A i j) (B j k)).
+  Definition mtrans (A : nat -> nat -> T) (i j : nat) : T := A j i.
+  Definition mdot (r c : nat) (G Y : nat -> nat -> T) : T :=
+    sumn r (fun i => sumn c (fun k => mul (G i k) (Y i k))).
+
+  Theorem matmul_bw_adjoint d1 d2 d3 (A B dA dB G : nat -> nat -> T) :
+    mdot d1 d3 G (fun i k => add (mmul d2 A dB i k) (mmul d2 dA B i k))
+    = add (mdot d1 d2 (mmul d3 G (mtrans B)) dA) (mdot d2 d3 (mmul d1 (mtrans A) G) dB).
+  Proof.
+    unfold mdot, mmul, mtrans.
+    transitivity (add (sumn d1 (fun i => sumn d3 (fun k => sumn d2 (fun j => mul (G i k) (mul (A i j) (dB j k))))))
+                      (sumn d1 (fun i => sumn d3 (fun k => sumn d2 (fun j => mul (G i k) (mul (dA i j) (B j k))))))).
+    { rewrite <- sumn_add. apply sumn_ext. intros i _. rewrite <- sumn_add. apply sumn_ext. intros k _.
+      rewrite mul_add_distr_l, !sumn_mul_l. reflexivity. }
+    rewrite add_comm. f_equal.
+    - (* dA: sum_i sum_k sum_j -> sum_i sum_j sum_k *)
+      apply sumn_ext. intros i _. rewrite sumn_swap. apply sumn_ext. intros j _.
+      rewrite sumn_mul_r. apply sumn_ext. intros k _.
+      rewrite (mul_comm (dA i j)), mul_assoc. reflexivity.
+    - (* dB: sum_i sum_k sum_j -> sum_j sum_k sum_i *)
+      transitivity (sumn d1 (fun i => sumn d2 (fun j => sumn d3 (fun k => mul (G i k) (mul (A i j) (dB j k)))))).
+      { apply sumn_ext. intros i _. apply sumn_swap. }
+      rewrite sumn_swap. apply sumn_ext. intros j _. rewrite sumn_swap. apply sumn_ext. intros k _.
+      rewrite sumn_mul_r. apply sumn_ext. intros i _.
+      rewrite mul_assoc, (mul_comm (G i k)). reflexivity.
+  Qed.
+
+  (* sumn is the sum_list of the values, and the dot of Index.v on lists *)
+  Lemma sumn_sum_list n f : sumn n f = sum_list T zero add (map f (range n)).
+  Proof.
+    unfold range. induction n as [|n IH]; cbn [sumn]; [reflexivity|].
+    rewrite seq_S, map_app, (sum_list_app T zero add add_assoc add_0_l), IH. cbn [map sum_list fold_right Nat.add].
+    f_equal. rewrite add_comm, add_0_l. reflexivity.
+  Qed.
+
+  Lemma dot_sumn : forall a b : list T, length a = length b ->
+    dot T zero add mul a b = sumn (length a) (fun i => mul (nth i a zero) (nth i b zero)).
+  Proof.
+    induction a as [|x a IH]; intros [|y b] Hl; cbn [length] in Hl; try discriminate; [reflexivity|].
+    cbn [dot length]. rewrite IH by lia. rewrite !sumn_sum_list. unfold range.
+    cbn [seq map sum_list fold_right nth]. f_equal. fold (sum_list T zero add).
+    rewrite <- seq_shift, map_map. reflexivity.
+  Qed.
+End MatAlg.
+
+(* ================================================================== generic bilinear adjointness *)
+(* A bilinear kernel given by triples (y, (x, w)):  forward  Y[y] += X[x] * W[w];
+   backward  gX[x] += gY[y] * W[w],  gW[w] += gY[y] * X[x]  over the SAME triples
+   (conv2d_fw_impl / conv2d_bw_impl).  Then the backward kernel adds exactly the adjoint of
+   the differential of the forward kernel, whatever the triples are (C01). *)
+Section TripleAdjoint.
+  Variable T : Type.
+  Variables (zero : T) (add mul : T -> T -> T).
+  Hypothesis add_comm : forall a b, add a b = add b a.
+  Hypothesis add_assoc : forall a b c, add a (add b c) = add (add a b) c.
+  Hypothesis add_0_l : forall a, add zero a = a.
+  Hypothesis mul_comm : forall a b, mul a b = mul b a.
+  Hypothesis mul_assoc : forall a b c, mul a (mul b c) = mul (mul a b) c.
+  Hypothesis mul_add_distr_r : forall a b c, mul (add a b) c = add (mul a c) (mul b c).
+  Hypothesis mul_0_l : forall a, mul zero a = zero.
+
+  Notation dotT := (dot T zero add mul).
+  Notation sumT := (sum_list T zero add).
+
+  Lemma incr_run_dot p : forall y g, Forall (fun e => fst e < length y) p -> length g = length y ->
+    dotT (incr_run T zero add p y) g
+    = add (dotT y g) (sumT (map (fun e => mul (snd e) (nth (fst e) g zero)) p)).
+  Proof.
+    induction p as [|[d v] r IH]; intros y g Hb Hl; cbn [incr_run map sum_list fold_right fst snd].
+    - rewrite add_comm, add_0_l. reflexivity.
+    - inversion Hb as [|? ? Hd Hr]; subst. cbn [fst] in Hd.
+      rewrite IH.
+      + rewrite (dot_upd T zero add mul add_comm add_assoc mul_add_distr_r) by assumption.
+        rewrite <- add_assoc. reflexivity.
+      + rewrite upd_length by exact Hd. exact Hr.
+      + rewrite upd_length by exact Hd. exact Hl.
+  Qed.
+
+  Lemma dot_zeros n : forall g, dotT (repeat zero n) g = zero.
+  Proof.
+    induction n as [|n IH]; intros [|x g]; cbn [repeat dot]; try reflexivity.
+    rewrite IH, mul_0_l. apply add_0_l.
+  Qed.
+
+  Lemma sum_list_map_add {A} (f g : A -> T) p :
+    sumT (map (fun e => add (f e) (g e)) p) = add (sumT (map f p)) (sumT (map g p)).
+  Proof.
+    induction p as [|e p IH]; cbn [map sum_list fold_right]; [rewrite add_0_l; reflexivity|].
+    fold (sumT (map (fun e => add (f e) (g e)) p)). fold (sumT (map f p)). fold (sumT (map g p)).
+    rewrite IH. rewrite <- !add_assoc. f_equal. rewrite !add_assoc. f_equal. apply add_comm.
+  Qed.
+
+  Lemma add4 a s1 b s2 : add (add a s1) (add b s2) = add (add a b) (add s1 s2).
+  Proof. rewrite <- !add_assoc. f_equal. rewrite !add_assoc. f_equal. apply add_comm. Qed.
+
+  Definition trip_fw (p : list (nat * (nat * nat))) (X W : list T) : list (nat * T) :=
+    map (fun e => (fst e, mul (nth (fst (snd e)) X zero) (nth (snd (snd e)) W zero))) p.
+  (* differential of the forward kernel in direction (dX, dW) *)
+  Definition trip_dfw (p : list (nat * (nat * nat))) (X W dX dW : list T) : list (nat * T) :=
+    map (fun e => (fst e, add (mul (nth (fst (snd e)) dX zero) (nth (snd (snd e)) W zero))
+                              (mul (nth (fst (snd e)) X zero) (nth (snd (snd e)) dW zero)))) p.
+  Definition trip_bw_x (p : list (nat * (nat * nat))) (gy W : list T) : list (nat * T) :=
+    map (fun e => (fst (snd e), mul (nth (fst e) gy zero) (nth (snd (snd e)) W zero))) p.
+  Definition trip_bw_w (p : list (nat * (nat * nat))) (gy X : list T) : list (nat * T) :=
+    map (fun e => (snd (snd e), mul (nth (fst e) gy zero) (nth (fst (snd e)) X zero))) p.
+
+  Theorem triple_adjoint p (X W dX dW gy gx gw : list T) :
+    Forall (fun e => fst e < length gy /\ fst (snd e) < length gx /\ snd (snd e) < length gw) p ->
+    length dX = length gx -> length dW = length gw ->
+    add (dotT (incr_run T zero add (trip_bw_x p gy W) gx) dX)
+        (dotT (incr_run T zero add (trip_bw_w p gy X) gw) dW)
+    = add (add (dotT gx dX) (dotT gw dW))
+          (dotT (incr_run T zero add (trip_dfw p X W dX dW) (repeat zero (length gy))) gy).
+  Proof.
+    intros Hb HlX HlW.
+    rewrite !incr_run_dot; try assumption; try (rewrite repeat_length; reflexivity).
+    2:{ rewrite repeat_length. unfold trip_dfw. rewrite Forall_map. cbn [fst]. eapply Forall_impl; [|exact Hb]. cbn. tauto. }
+    2:{ unfold trip_bw_w. rewrite Forall_map. cbn [fst]. eapply Forall_impl; [|exact Hb]. cbn. tauto. }
+    2:{ unfold trip_bw_x. rewrite Forall_map. cbn [fst]. eapply Forall_impl; [|exact Hb]. cbn. tauto. }
+    rewrite dot_zeros, add_0_l. unfold trip_bw_x, trip_bw_w, trip_dfw. rewrite !map_map. cbn [fst snd].
+    rewrite (map_ext (fun e : nat * (nat * nat) =>
+               mul (add (mul (nth (fst (snd e)) dX zero) (nth (snd (snd e)) W zero))
+                        (mul (nth (fst (snd e)) X zero) (nth (snd (snd e)) dW zero))) (nth (fst e) gy zero))
+             (fun e : nat * (nat * nat) =>
+               add (mul (mul (nth (fst e) gy zero) (nth (snd (snd e)) W zero)) (nth (fst (snd e)) dX zero))
+                   (mul (mul (nth (fst e) gy zero) (nth (fst (snd e)) X zero)) (nth (snd (snd e)) dW zero)))).
+    - rewrite sum_list_map_add. apply add4.
+    - intro e. rewrite mul_add_distr_r. f_equal.
+      + rewrite (mul_comm (nth (fst (snd e)) dX zero)), mul_comm, mul_assoc. reflexivity.
+      + rewrite mul_comm, mul_assoc. reflexivity.
+  Qed.
+End TripleAdjoint.
+
+(* ================================================================== conv2d *)
+Lemma idx_lt a A b Bn : a < A -> b < Bn -> a * Bn + b < A * Bn.
+Proof. intros Ha Hb. assert ((a + 1) * Bn <= A * Bn) by (apply Nat.mul_le_mono_r; lia). lia. Qed.
+
+Section Conv2d.
+  Variables (sx sw sy : tshape).
+  Variables (xh xw xc wh ww yh yw yc B Vx Vw Vy : nat).
+  Variables (p0 p1 s0 s1 d0 d1 : nat).
+  Hypothesis Hxh : tget sx 0 = xh.
+  Hypothesis Hxw : tget sx 1 = xw.
+  Hypothesis Hxc : tget sx 2 = xc.
+  Hypothesis Hwh : tget sw 0 = wh.
+  Hypothesis Hww : tget sw 1 = ww.
+  Hypothesis Hyh : tget sy 0 = yh.
+  Hypothesis Hyw : tget sy 1 = yw.
+  Hypothesis Hyc : tget sy 2 = yc.
+  Hypothesis HB : tbatch sy = B.
+  Hypothesis HVx : tvolume sx = Vx.
+  Hypothesis HVw : tvolume sw = Vw.
+  Hypothesis HVy : tvolume sy = Vy.
+
+  (* x coordinate (ty - p0, tx - p1) lies inside the image; ty = y_y*s0 + w_y*d0 etc. *)
+  Definition inside (ty tx : nat) : bool :=
+    (p0 <=? ty) && (ty - p0 <? xh) && (p1 <=? tx) && (tx - p1 <? xw).
+
+  (* y[bn; y_y, y_x, y_c] += x[bn|shared; s0*y_y + d0*w_y - p0, s1*y_x + d1*w_x - p1, x_c]
+                            * w[bn|shared; wh-1-w_y, ww-1-w_x, x_c, y_c]      (column-major) *)
+  Definition conv_entry (bn y_c y_x y_y x_c w_x w_y : nat) : nat * (nat * nat) :=
+    (bn * Vy + ((y_c * yw + y_x) * yh + y_y),
+     (bsel sx bn * Vx + ((x_c * xw + (y_x * s1 + w_x * d1 - p1)) * xh + (y_y * s0 + w_y * d0 - p0)),
+      bsel sw bn * Vw + (((y_c * xc + x_c) * ww + (ww - 1 - w_x)) * wh + (wh - 1 - w_y)))).
+
+  (* the group of output element (y_y, y_x, y_c) of sample bn, in loop order: all kernel
+     positions whose x coordinate is inside the image (zero padding: the others add nothing) *)
+  Definition conv_group (bn y_c y_x y_y : nat) : list (nat * (nat * nat)) :=
+    flat_map2 xc (fun x_c => flat_map2 ww (fun w_x => flat_map2 wh (fun w_y =>
+      if inside (y_y * s0 + w_y * d0) (y_x * s1 + w_x * d1)
+      then [conv_entry bn y_c y_x y_y x_c w_x w_y] else []))).
+
+  Lemma conv2d_form :
+    conv2d_triples sx sw sy p0 p1 s0 s1 d0 d1
+    = flat_map2 B (fun bn => flat_map2 yc (fun y_c => flat_map2 yw (fun y_x => flat_map2 yh (fun y_y =>
+        conv_group bn y_c y_x y_y)))).
+  Proof.
+    unfold conv2d_triples, conv_group. cbv zeta. rewrite Hxh, Hxw, Hxc, Hwh, Hww, Hyh, Hyw, Hyc, HB, HVx, HVw, HVy.
+    apply flat_map2_ext. intros bn _. apply flat_map2_ext. intros y_c _. apply flat_map2_ext. intros y_x _.
+    apply flat_map2_ext. intros y_y _. apply flat_map2_ext. intros x_c _. apply flat_map2_ext. intros w_x _.
+    apply flat_map2_ext. intros w_y _. unfold inside, conv_entry, bsel.
+    destruct ((p0 <=? y_y * s0 + w_y * d0) && (y_y * s0 + w_y * d0 - p0 <? xh) &&
+              (p1 <=? y_x * s1 + w_x * d1) && (y_x * s1 + w_x * d1 - p1 <? xw)); [|reflexivity].
+    rewrite !Nat.mul_assoc. reflexivity.
+  Qed.
+
+  Lemma inside_spec ty tx : inside ty tx = true <-> p0 <= ty /\ ty - p0 < xh /\ p1 <= tx /\ tx - p1 < xw.
+  Proof.
+    unfold inside. rewrite !andb_true_iff, !Nat.leb_le, !Nat.ltb_lt. tauto.
+  Qed.
+
+  Lemma conv_group_In bn y_c y_x y_y e :
+    In e (conv_group bn y_c y_x y_y) <->
+    exists x_c w_x w_y, x_c < xc /\ w_x < ww /\ w_y < wh /\
+      p0 <= y_y * s0 + w_y * d0 /\ y_y * s0 + w_y * d0 - p0 < xh /\
+      p1 <= y_x * s1 + w_x * d1 /\ y_x * s1 + w_x * d1 - p1 < xw /\
+      e = conv_entry bn y_c y_x y_y x_c w_x w_y.
+  Proof.
+    unfold conv_group. rewrite In_flat_map2. split.
+    - intros [x_c [Hc H]]. apply In_flat_map2 in H. destruct H as [w_x [Hwx H]].
+      apply In_flat_map2 in H. destruct H as [w_y [Hwy H]].
+      destruct (inside (y_y * s0 + w_y * d0) (y_x * s1 + w_x * d1)) eqn:E; [|destruct H].
+      apply inside_spec in E. destruct H as [<-|[]]. exists x_c, w_x, w_y. tauto.
+    - intros [x_c [w_x [w_y [Hc [Hwx [Hwy [H1 [H2 [H3 [H4 ->]]]]]]]]]]. exists x_c. split; [exact Hc|].
+      apply In_flat_map2. exists w_x. split; [exact Hwx|]. apply In_flat_map2. exists w_y. split; [exact Hwy|].
+      rewrite (proj2 (inside_spec _ _)) by tauto. left. reflexivity.
+  Qed.
+
+  (* C02: the triples are exactly the TRUE convolution (flipped kernel) with zero padding *)
+  Theorem conv2d_spec e :
+    In e (conv2d_triples sx sw sy p0 p1 s0 s1 d0 d1) <->
+    exists bn y_c y_x y_y x_c w_x w_y,
+      bn < B /\ y_c < yc /\ y_x < yw /\ y_y < yh /\ x_c < xc /\ w_x < ww /\ w_y < wh /\
+      p0 <= y_y * s0 + w_y * d0 /\ y_y * s0 + w_y * d0 - p0 < xh /\
+      p1 <= y_x * s1 + w_x * d1 /\ y_x * s1 + w_x * d1 - p1 < xw /\
+      e = conv_entry bn y_c y_x y_y x_c w_x w_y.
+  Proof.
+    rewrite conv2d_form, In_flat_map2. split.
+    - intros [bn [Hb H]]. apply In_flat_map2 in H. destruct H as [y_c [Hc H]].
+      apply In_flat_map2 in H. destruct H as [y_x [Hx H]]. apply In_flat_map2 in H. destruct H as [y_y [Hy H]].
+      apply conv_group_In in H. destruct H as [x_c [w_x [w_y H]]].
+      exists bn, y_c, y_x, y_y, x_c, w_x, w_y. tauto.
+    - intros [bn [y_c [y_x [y_y [x_c [w_x [w_y [Hb [Hc [Hx [Hy H]]]]]]]]]]]. exists bn. split; [exact Hb|].
+      apply In_flat_map2. exists y_c. split; [exact Hc|]. apply In_flat_map2. exists y_x. split; [exact Hx|].
+      apply In_flat_map2. exists y_y. split; [exact Hy|]. apply conv_group_In. exists x_c, w_x, w_y. exact H.
+  Qed.
+
+  Hypothesis HVy3 : Vy = yh * yw * yc.
+
+  Lemma conv_dst_flat bn y_c y_x y_y :
+    bn * Vy + ((y_c * yw + y_x) * yh + y_y) = flat yh yw y_y y_x (flat 1 yc 0 y_c bn).
+  Proof. unfold flat. rewrite HVy3. ring. Qed.
+
+  Lemma conv_dst_inj bn y_c y_x y_y bn' y_c' y_x' y_y' :
+    y_c < yc -> y_c' < yc -> y_x < yw -> y_x' < yw -> y_y < yh -> y_y' < yh ->
+    bn * Vy + ((y_c * yw + y_x) * yh + y_y) = bn' * Vy + ((y_c' * yw + y_x') * yh + y_y') ->
+    bn = bn' /\ y_c = y_c' /\ y_x = y_x' /\ y_y = y_y'.
+  Proof.
+    intros Hc Hc' Hx Hx' Hy Hy' E. rewrite !conv_dst_flat in E.
+    destruct (flat_inj yh yw _ _ _ _ _ _ Hy Hy' Hx Hx' E) as [-> [-> E2]].
+    destruct (flat_inj 1 yc 0 y_c bn 0 y_c' bn' ltac:(lia) ltac:(lia) Hc Hc' E2) as [_ [-> ->]]. auto.
+  Qed.
+
+  (* every output element gets its group, in loop order - also when the group is empty
+     (the C++ stores 0 first, so such an element is 0) *)
+  Theorem conv2d_cell bn y_c y_x y_y : bn < B -> y_c < yc -> y_x < yw -> y_y < yh ->
+    cell (bn * Vy + ((y_c * yw + y_x) * yh + y_y)) (conv2d_triples sx sw sy p0 p1 s0 s1 d0 d1)
+    = conv_group bn y_c y_x y_y.
+  Proof.
+    intros Hb Hc Hx Hy. unfold cell. rewrite conv2d_form.
+    set (P := fun e : nat * (nat * nat) => fst e =? bn * Vy + ((y_c * yw + y_x) * yh + y_y)).
+    assert (Hother : forall bn' y_c' y_x' y_y' e, y_c' < yc -> y_x' < yw -> y_y' < yh ->
+              (bn', y_c', y_x', y_y') <> (bn, y_c, y_x, y_y) ->
+              In e (conv_group bn' y_c' y_x' y_y') -> P e = false).
+    { intros bn' y_c' y_x' y_y' e Hc' Hx' Hy' Hne He. apply conv_group_In in He.
+      destruct He as [x_c [w_x [w_y [_ [_ [_ [_ [_ [_ [_ ->]]]]]]]]]]. unfold P, conv_entry. cbn [fst].
+      apply Nat.eqb_neq. intro E.
+      destruct (conv_dst_inj _ _ _ _ _ _ _ _ Hc' Hc Hx' Hx Hy' Hy E) as [-> [-> [-> ->]]]. apply Hne. reflexivity. }
+    rewrite (filter_flat_map2_one P B _ bn Hb).
+    2:{ intros bn' _ Hne. apply filter_none. intros e He. apply In_flat_map2 in He. destruct He as [y_c' [Hc' He]].
+        apply In_flat_map2 in He. destruct He as [y_x' [Hx' He]]. apply In_flat_map2 in He. destruct He as [y_y' [Hy' He]].
+        apply (Hother bn' y_c' y_x' y_y' e); try assumption. congruence. }
+    rewrite (filter_flat_map2_one P yc _ y_c Hc).
+    2:{ intros y_c' Hc' Hne. apply filter_none. intros e He.
+        apply In_flat_map2 in He. destruct He as [y_x' [Hx' He]]. apply In_flat_map2 in He. destruct He as [y_y' [Hy' He]].
+        apply (Hother bn y_c' y_x' y_y' e); try assumption. congruence. }
+    rewrite (filter_flat_map2_one P yw _ y_x Hx).
+    2:{ intros y_x' Hx' Hne. apply filter_none. intros e He. apply In_flat_map2 in He. destruct He as [y_y' [Hy' He]].
+        apply (Hother bn y_c y_x' y_y' e); try assumption. congruence. }
+    rewrite (filter_flat_map2_one P yh _ y_y Hy).
+    2:{ intros y_y' Hy' Hne. apply filter_none. intros e He.
+        apply (Hother bn y_c y_x y_y' e); try assumption. congruence. }
+    apply filter_all. intros e He. apply conv_group_In in He.
+    destruct He as [x_c [w_x [w_y [_ [_ [_ [_ [_ [_ [_ ->]]]]]]]]]]. unfold P, conv_entry. cbn [fst]. apply Nat.eqb_refl.
+  Qed.
+
+  Lemma conv2d_cells_cover d : 0 < yh -> 0 < yw -> 0 < yc -> d < B * Vy ->
+    exists bn y_c y_x y_y, bn < B /\ y_c < yc /\ y_x < yw /\ y_y < yh /\
+      d = bn * Vy + ((y_c * yw + y_x) * yh + y_y).
+  Proof.
+    intros H1 H2 H3 Hd. rewrite HVy3 in Hd.
+    destruct (flat_split yh yw (yc * B) d H1 H2) as [y_y [y_x [hi [Hy [Hx [Hh E]]]]]]; [lia|].
+    destruct (flat_split 1 yc B hi ltac:(lia) H3) as [z [y_c [bn [Hz [Hc [Hb E2]]]]]]; [lia|].
+    exists bn, y_c, y_x, y_y. rewrite conv_dst_flat. replace z with 0 in E2 by lia. rewrite <- E2. auto.
+  Qed.
+
+  (* ---- C11 ---- *)
+  Hypothesis HVx3 : Vx = xh * xw * xc.
+  Hypothesis HVw4 : Vw = wh * ww * xc * yc.
+  Hypothesis Hwh0 : 0 < wh.
+  Hypothesis Hww0 : 0 < ww.
+  Hypothesis Hbx : tbatch sx = 1 \/ tbatch sx = B.
+  Hypothesis Hbw : tbatch sw = 1 \/ tbatch sw = B.
+
+  Theorem conv2d_in_bounds :
+    Forall (fun e => fst e < tsize sy /\ fst (snd e) < tsize sx /\ snd (snd e) < tsize sw)
+           (conv2d_triples sx sw sy p0 p1 s0 s1 d0 d1).
+  Proof.
+    apply Forall_forall. intros e He. apply conv2d_spec in He.
+    destruct He as [bn [y_c [y_x [y_y [x_c [w_x [w_y [Hb [Hc [Hx [Hy [Hxc' [Hwx [Hwy [H1 [H2 [H3 [H4 ->]]]]]]]]]]]]]]]]]].
+    unfold conv_entry. cbn [fst snd]. unfold tsize. rewrite HVx, HVw, HVy, HB.
+    pose proof (bsel_lt sx bn B Hbx Hb) as Bx. pose proof (bsel_lt sw bn B Hbw Hb) as Bw.
+    assert (Ay : (y_c * yw + y_x) * yh + y_y < Vy).
+    { rewrite HVy3. replace (yh * yw * yc) with (yc * yw * yh) by ring.
+      apply idx_lt; [apply idx_lt; assumption|assumption]. }
+    assert (Ax : (x_c * xw + (y_x * s1 + w_x * d1 - p1)) * xh + (y_y * s0 + w_y * d0 - p0) < Vx).
+    { rewrite HVx3. replace (xh * xw * xc) with (xc * xw * xh) by ring.
+      apply idx_lt; [apply idx_lt; assumption|assumption]. }
+    assert (Aw : ((y_c * xc + x_c) * ww + (ww - 1 - w_x)) * wh + (wh - 1 - w_y) < Vw).
+    { rewrite HVw4. replace (wh * ww * xc * yc) with (yc * xc * ww * wh) by ring.
+      apply idx_lt; [apply idx_lt; [apply idx_lt; assumption|lia]|lia]. }
+    assert (By : (bn + 1) * Vy <= B * Vy) by (apply Nat.mul_le_mono_r; lia).
+    assert (Bx' : (bsel sx bn + 1) * Vx <= tbatch sx * Vx) by (apply Nat.mul_le_mono_r; lia).
+    assert (Bw' : (bsel sw bn + 1) * Vw <= tbatch sw * Vw) by (apply Nat.mul_le_mono_r; lia).
+    lia.
+  Qed.
+
+  (* ---- value level ---- *)
+  Section ConvValue.
+    Variable T : Type.
+    Variables (zero : T) (add mul : T -> T -> T).
+
+    (* y[bn; y_y,y_x,y_c] = sum over the group, in loop order, starting from 0:
+       the true convolution with zero padding (an empty group gives 0) *)
+    Theorem conv2d_value x w bn y_c y_x y_y : bn < B -> y_c < yc -> y_x < yw -> y_y < yh ->
+      nth (bn * Vy + ((y_c * yw + y_x) * yh + y_y))
+          (incr_run T zero add (bil_incr T zero mul (conv2d_triples sx sw sy p0 p1 s0 s1 d0 d1) x w)
+                    (repeat zero (tsize sy))) zero
+      = fold_left add (map snd (bil_incr T zero mul (conv_group bn y_c y_x y_y) x w)) zero.
+    Proof.
+      intros Hb Hc Hx Hy. rewrite nth_incr_run.
+      - rewrite nth_repeat_zero, cell_bil_incr, conv2d_cell by assumption. reflexivity.
+      - rewrite repeat_length. unfold bil_incr. rewrite Forall_map. cbn [fst].
+        eapply Forall_impl; [|exact conv2d_in_bounds]. intros e [H _]. exact H.
+    Qed.
+
+    (* C01: conv2d_bw_impl (gx[x] += gy[y]*w[w], gw[w] += gy[y]*x[x] over the same triples)
+       adds the adjoint of the differential of conv2d_fw_impl; a batch-1 operand receives the
+       sum over the samples because its triples address the single shared sample *)
+    Hypothesis add_comm : forall a b, add a b = add b a.
+    Hypothesis add_assoc : forall a b c, add a (add b c) = add (add a b) c.
+    Hypothesis add_0_l : forall a, add zero a = a.
+    Hypothesis mul_comm : forall a b, mul a b = mul b a.
+    Hypothesis mul_assoc : forall a b c, mul a (mul b c) = mul (mul a b) c.
+    Hypothesis mul_add_distr_r : forall a b c, mul (add a b) c = add (mul a c) (mul b c).
+    Hypothesis mul_0_l : forall a, mul zero a = zero.
+
+    Theorem conv2d_bw_adjoint (X W dX dW gy gx gw : list T) :
+      length gy = tsize sy -> length gx = tsize sx -> length gw = tsize sw ->
+      length dX = tsize sx -> length dW = tsize sw ->
+      let p := conv2d_triples sx sw sy p0 p1 s0 s1 d0 d1 in
+      add (dot T zero add mul (incr_run T zero add (trip_bw_x T zero mul p gy W) gx) dX)
+          (dot T zero add mul (incr_run T zero add (trip_bw_w T zero mul p gy X) gw) dW)
+      = add (add (dot T zero add mul gx dX) (dot T zero add mul gw dW))
+            (dot T zero add mul
+               (incr_run T zero add (trip_dfw T zero add mul p X W dX dW) (repeat zero (length gy))) gy).
+    Proof.
+      intros Hgy Hgx Hgw HdX HdW p.
+      apply (triple_adjoint T zero add mul add_comm add_assoc add_0_l mul_comm mul_assoc mul_add_distr_r mul_0_l).
+      - rewrite Hgy, Hgx, Hgw. exact conv2d_in_bounds.
+      - congruence.
+      - congruence.
+    Qed.
+  End ConvValue.
+
+  (* ---- the shape rule of shape_ops::conv2d: the dilated window of every output position
+     lies inside the padded image, so the signed coordinate the C++ forms is below
+     x_h + p0 (no wrap-around of its int32 arithmetic for images below 2^31) ---- *)
+  Hypothesis Hs0 : 0 < s0.
+  Hypothesis Hfit0 : (wh - 1) * d0 + 1 <= xh + 2 * p0.
+  Hypothesis Hrule0 : yh = (xh + 2 * p0 - ((wh - 1) * d0 + 1)) / s0 + 1.
+
+  Theorem conv2d_window_fits y_y w_y : y_y < yh -> w_y < wh -> y_y * s0 + w_y * d0 < xh + 2 * p0.
+  Proof.
+    intros Hy Hw. pose proof (Nat.mul_div_le (xh + 2 * p0 - ((wh - 1) * d0 + 1)) s0 ltac:(lia)) as Hd.
+    assert (A1 : y_y * s0 <= (yh - 1) * s0) by (apply Nat.mul_le_mono_r; lia).
+    assert (A2 : w_y * d0 <= (wh - 1) * d0) by (apply Nat.mul_le_mono_r; lia).
+    replace (yh - 1) with ((xh + 2 * p0 - ((wh - 1) * d0 + 1)) / s0) in A1 by lia. lia.
+  Qed.
+
+  (* the rule yields the LARGEST such height: one more row would leave the padded image *)
+  Theorem conv2d_height_maximal : xh + 2 * p0 < yh * s0 + (wh - 1) * d0 + 1.
+  Proof.
+    pose proof (Nat.div_mod (xh + 2 * p0 - ((wh - 1) * d0 + 1)) s0 ltac:(lia)) as E.
+    pose proof (Nat.mod_upper_bound (xh + 2 * p0 - ((wh - 1) * d0 + 1)) s0 ltac:(lia)) as M.
+    rewrite Hrule0. lia.
+  Qed.
+End Conv2d.
